@@ -435,6 +435,62 @@ example :
     let N := NodeK.run (Toy.chain true) Toy.cfg ⟨genesisStore Toy.comp Toy.g 0, Caches.empty⟩ evs
     (N.store.head, (N.store.blocks 1002).bind (·.receipts), (N.store.blocks 2002).isSome) = (1001, some [], false) := by decide
 
+/-- **The sender cache cannot influence a verdict**: when the cached address is served only under signer EQUALITY
+    (`same s s' = true → s = s'`) and the cache holds what recovery under its own signer gives, `types.Sender` IS recovery under
+    the requested signer — for every cache content (no cache, the pool's EIP155 entry, an entry left by another fork's import). -/
+theorem sender_cache_transparent {Signer : Type} (recover : Signer → Tx → Option Addr) (same : Signer → Signer → Bool)
+    (hsame : ∀ s s', same s s' = true → s = s') (cache : Option (Signer × Addr)) (tx : Tx)
+    (hc : ∀ s a, cache = some (s, a) → recover s tx = some a) (signer : Signer) :
+    senderCached recover same cache signer tx = recover signer tx := by
+  unfold senderCached
+  cases cache with
+  | none => rfl
+  | some p =>
+    obtain ⟨s, a⟩ := p
+    simp only []
+    by_cases e : same s signer = true
+    · rw [if_pos e]; have := hsame s signer e; subst this; exact (hc s a rfl).symm
+    · rw [if_neg e]
+
+/-- … hence the verdict on a block is a function of the block and the parent state alone: however the components are completed
+    from a sender-resolution function (`mk`), resolving senders through ANY coherent per-transaction caches gives the same
+    `validateAll` as resolving them by recovery. -/
+theorem block_verdict_sender_cache_independent {Signer : Type} (recover : Signer → Tx → Option Addr) (same : Signer → Signer → Bool)
+    (hsame : ∀ s s', same s s' = true → s = s') (caches : Tx → Option (Signer × Addr))
+    (hc : ∀ tx s a, caches tx = some (s, a) → recover s tx = some a)
+    (mk : (Signer → Tx → Option Addr) → Comp St Tx) (cfg : Cfg) (pst : St) (b : Block Tx) :
+    validateAll (mk (fun signer tx => senderCached recover same (caches tx) signer tx)) cfg pst b =
+    validateAll (mk recover) cfg pst b := by
+  have e : (fun signer tx => senderCached recover same (caches tx) signer tx) = recover := by
+    funext signer tx
+    exact sender_cache_transparent recover same hsame (caches tx) tx (hc tx) signer
+  rw [e]
+
+/-- Witness of what goes wrong when the cache is served ACROSS signers (seeded change C01-8: EIP155 ↔ Homestead treated as
+    interchangeable): signer 0 = Homestead cannot recover the replay-protected transaction, signer 1 = EIP155 recovers address 7;
+    with the pool's entry (1, 7) in the cache the Homestead lookup answers 7 instead of failing — warm and cold nodes disagree. -/
+theorem sender_cache_across_signers_witness :
+    let recover : Nat → Nat → Option Addr := fun signer _ => if signer = 1 then some 7 else none
+    let lax : Nat → Nat → Bool := fun _ _ => true
+    let strict : Nat → Nat → Bool := fun a b => a == b
+    senderCached recover lax (some (1, 7)) 0 0 = some 7 ∧ senderCached recover lax none 0 0 = none ∧
+    senderCached recover strict (some (1, 7)) 0 0 = none := by
+  decide
+
+/-- BLOCKHASH is answered from the executed block's OWN ancestry: the walk from `ref.ParentHash` reads no head and no canonical
+    number index, so it is the same whichever branch is the head.  Witness of the seeded change C01-7 (answering from the
+    canonical index when `number = head + 1`): headers 10 ← 21 (branch A, height 1) and 10 ← 22 ← 32 (branch B); executing a child
+    of 32... of 22 at height 2 = head(21).number + 1, BLOCKHASH(1) is 22 by the walk but 21 by the canonical index. -/
+theorem blockhash_walk_ignores_head_witness :
+    let mkH (parent number : Nat) : Header :=
+      { parentHash := parent, number := number, coinbase := 0, gasLimit := 0, time := 0, difficulty := 0, extra := 0,
+        uncleHash := 0, root := 0, txHash := 0, receiptHash := 0, bloom := 0, gasUsed := 0 }
+    let hdr : Hash → Option Header := fun h =>
+      if h = 10 then some (mkH 0 0) else if h = 21 then some (mkH 10 1) else if h = 22 then some (mkH 10 1) else none
+    let canonical : Nat → Hash := fun n => if n = 0 then 10 else if n = 1 then 21 else 0
+    blockHashWalk hdr 3 22 1 = 22 ∧ canonical 1 = 21 ∧ blockHashWalk hdr 3 22 0 = 10 := by
+  decide
+
 /-! ## 7. Equal content ⇒ equal ROOT, on real Merkle-Patricia tries (composition with C10) -/
 
 /-- **`Finalise` / `IntermediateRoot` on real tries**: run the two map loops on actual Merkle-Patricia tries (every storage
